@@ -263,9 +263,12 @@ def decode_number(data_raw: int, bit_offset: int, bit_length: int, signed: bool,
     # adjust resolution
     number_int *= resolution
 
-    if number_int < min_value:
+    # raw * resolution is a float: allow for its rounding error when comparing with the range limits
+    # (e.g. 65532 * 0.1 == 6553.200000000001 must not be rejected by a maximum of 6553.2)
+    epsilon = abs(resolution) * 1e-6
+    if number_int < min_value - epsilon:
         raise ValueError("Value below minimum allowed")
-    if number_int > max_value:
+    if number_int > max_value + epsilon:
         raise ValueError("Value above maximum allowed")
 
     return number_int
